@@ -153,18 +153,39 @@ package downloader
 
 // reserveHeaders: a result slot is created only inside the window, at index Number - resultOffset, for the popped header; a no-op
 // (empty) part is accounted by one decrement of that slot's Pending.
+// Task conservation ("work taken by a peer ... is handed to others"): on every return without error, each header popped from the task
+// queue is accounted for exactly once — completed as a no-op (c18Nooped, removed from the task pool and marked done), part of the
+// returned request, or pushed back to the task queue (the headers the peer lacks) — also when no request is returned.
+// The errInvalidChain return (a popped number outside the window) is excluded: it aborts the whole sync and the queue is reset.
+//@ ghost var c18Nooped: int
 //@ func (*queue).reserveHeaders props C18
 //@ panics none
 //@ pureparam isNoop
 //@ requires q != nil && p != nil && taskQueue != nil && c18HeaderQueues[taskQueue] && c18WF(q) && c18Bound(q)
 //@ requires count >= 0 && donePool != nil && pendPool != nil
+//@ ghost after delete#1: c18Nooped := c18Nooped + 1
 //@ loop proc invariant [wf] old(c18NumbersFit63(q)) ==> c18WF(q)
 //@ loop proc invariant [window-same] off(q.resultCache) == 0
 //@ loop proc invariant [skip-items] off(skip) == 0 && forall k: int :: { skip[k] } 0 <= k && k < len(skip) ==> skip[k] != nil && skip[k].Number != nil
-//@ loop rangeindex invariant [idx] -1 <= rangeindex && rangeindex <= 2^63 - 2
-//@ modifies all, c18Pushed, c18PushCount
+//@ loop proc invariant [popped-accounted] c18PopCount - old(c18PopCount) == (c18Nooped - old(c18Nooped)) + len(send) + len(skip)
+//@ loop proc invariant [no-push-yet] c18PushCount == old(c18PushCount) && c18Pushed == old(c18Pushed) && c18Nooped >= old(c18Nooped)
+//@ loop rangeindex invariant [idx] -1 <= rangeindex && rangeindex < len(skip)
+//@ loop rangeindex invariant [counts-kept] c18PopCount == entry(c18PopCount) && c18Nooped == entry(c18Nooped)
+//@ loop rangeindex invariant [push-count] c18PushCount == old(c18PushCount) + rangeindex + 1
+//@ loop rangeindex invariant [requeued] forall k: int :: { skip[k] } 0 <= k && k <= rangeindex ==> c18Pushed[taskQueue][box(skip[k])]
+//@ loop rangeindex decreases len(skip) - rangeindex
+// (return anchors are numbered in translation order: #1 is the errInvalidChain return, #2/#3 the two returns behind the requeue loop)
+//@ assert before return#2: [lacked-push-count] c18PushCount == old(c18PushCount) + len(skip)
+//@ assert before return#2: [lacked-headers-requeued] forall k: int :: { skip[k] } 0 <= k && k < len(skip) ==> c18Pushed[taskQueue][box(skip[k])]
+//@ assert before return#3: [lacked-push-count] c18PushCount == old(c18PushCount) + len(skip)
+//@ assert before return#3: [lacked-headers-requeued] forall k: int :: { skip[k] } 0 <= k && k < len(skip) ==> c18Pushed[taskQueue][box(skip[k])]
+//@ modifies all, c18Pushed, c18PushCount, c18PopCount, c18Nooped
 //@ ensures [wf] old(c18NumbersFit63(q)) ==> c18WF(q)
 //@ ensures [window-same] q.resultCache == old(q.resultCache) && q.resultOffset == old(q.resultOffset)
+//@ ensures [popped-conserved] result2 == nil ==> c18PopCount - old(c18PopCount) ==
+//@     (c18Nooped - old(c18Nooped)) + (if result0 != nil then len(result0.Headers) else 0) + (c18PushCount - old(c18PushCount))
+//@ ensures [request-pending] result2 == nil && result0 != nil ==> pendPool[p.id] == result0 && len(result0.Headers) > 0 && result0.Peer == p
+//@ ensures [nothing-popped-nothing-pushed] c18PopCount == old(c18PopCount) ==> c18PushCount == old(c18PushCount) && result0 == nil
 
 // ---------------------------------------------------------------------------------------------------------------------
 // Task conservation when a peer fails (clause 6, set/count level): every header of the abandoned request is pushed back to the
